@@ -13,8 +13,8 @@ type Time = time.Time
 type Month = time.Month
 type Weekday = time.Weekday
 type Location = time.Location
-type Ticker = time.Ticker
-type Timer = time.Timer
+type Ticker = simrt.ChanTimer
+type Timer = simrt.ChanTimer
 
 const (
 	Nanosecond  = time.Nanosecond
@@ -76,34 +76,10 @@ func ParseInLocation(layout, value string, loc *Location) (Time, error) {
 
 func AfterFunc(d Duration, f func()) *simrt.SimTimer { return simrt.AfterFunc(d, f) }
 
-// Channel-based timers cannot be controlled by the cooperative scheduler (a blocking
-// receive would park the real goroutine). Outside a simulation they are the real thing;
-// inside they abort the run as "unsupported" (exit 2, never a verdict).
-func After(d Duration) <-chan Time {
-	if !simrt.Active() {
-		return time.After(d)
-	}
-	simrt.Unsupported("time.After inside simulation")
-	return nil
-}
-func Tick(d Duration) <-chan Time {
-	if !simrt.Active() {
-		return time.Tick(d)
-	}
-	simrt.Unsupported("time.Tick inside simulation")
-	return nil
-}
-func NewTimer(d Duration) *Timer {
-	if !simrt.Active() {
-		return time.NewTimer(d)
-	}
-	simrt.Unsupported("time.NewTimer inside simulation")
-	return nil
-}
-func NewTicker(d Duration) *Ticker {
-	if !simrt.Active() {
-		return time.NewTicker(d)
-	}
-	simrt.Unsupported("time.NewTicker inside simulation")
-	return nil
-}
+// Channel-based timers: the channel is a real one, the value is delivered by the
+// simulator's scheduler at the virtual instant; the instrumenter turns the blocking
+// receive/select on it into a parked, retried operation.
+func After(d Duration) <-chan Time { return simrt.NewChanTimer(d, 0).C }
+func Tick(d Duration) <-chan Time  { return simrt.NewChanTimer(d, d).C }
+func NewTimer(d Duration) *Timer   { return simrt.NewChanTimer(d, 0) }
+func NewTicker(d Duration) *Ticker { return simrt.NewChanTimer(d, d) }
